@@ -842,8 +842,66 @@ fn first_diff(a: Option<&String>, b: Option<&String>) -> String {
     }
 }
 
+// ------------------------------------------------------------------------------------------------ pyxis::build on directory trees (C14, C12; bounded stand-in for lib.rs)
+fn fs_family(prop: &str, out: &mut Vec<Fail>) -> usize {
+    use std::path::{Path, PathBuf};
+    let root = scratch_dir().join("fs");
+    let trees: Vec<(&str, Vec<(&str, &str)>)> = vec![
+        ("flat", vec![("a.pyxis", "pub type A { pub a: u32 }\n")]),
+        ("nested", vec![("a.pyxis", "pub type A { pub a: u32 }\n"), ("sub/b.pyxis", "use a::A;\npub type B { pub a: A }\n"), ("sub/deep/er/c.pyxis", "use sub::b::B;\npub type C { pub b: B }\n")]),
+        ("empty-module", vec![("a.pyxis", "pub type A { pub a: u32 }\n"), ("nothing.pyxis", "\n"), ("only/docs.pyxis", "//! just docs\n")]),
+        ("not-pyxis", vec![("a.pyxis", "pub type A { pub a: u32 }\n"), ("readme.txt", "hello\n"), ("sub/notes.md", "x\n")]),
+        ("same-names", vec![("x/t.pyxis", "pub type T { pub a: u32 }\n"), ("y/t.pyxis", "pub type T { pub a: u64 }\n"), ("t.pyxis", "pub type T { pub a: u8 }\n")]),
+    ];
+    fn walk(d: &Path, base: &Path, v: &mut Vec<String>) { if let Ok(rd) = std::fs::read_dir(d) { for e in rd.flatten() { let p = e.path(); if p.is_dir() { walk(&p, base, v) } else { v.push(p.strip_prefix(base).unwrap_or(&p).to_string_lossy().replace('\\', "/")) } } } }
+    let mut n = 0;
+    let cwd = std::env::current_dir().ok();
+    for (label, files) in &trees {
+        let base = root.join(label);
+        let _ = std::fs::remove_dir_all(&base);
+        let ind = base.join("types");
+        for (rel, txt) in files {
+            let p = ind.join(rel);
+            let _ = std::fs::create_dir_all(p.parent().unwrap());
+            let _ = std::fs::write(&p, txt);
+        }
+        let mut want: Vec<String> = files.iter().filter(|(r, _)| r.ends_with(".pyxis")).map(|(r, _)| r.replace(".pyxis", ".rs")).collect();
+        want.sort();
+        // the same directory spelled in several ways (absolute, relative to the cwd, with `.` components)
+        let _ = std::env::set_current_dir(&base);
+        let spellings: Vec<PathBuf> = vec![ind.clone(), PathBuf::from("types"), PathBuf::from("./types"), PathBuf::from("types/"), PathBuf::from("././types/."), base.join("./types")];
+        for (k, sp) in spellings.iter().enumerate() {
+            let outd = base.join(format!("out{k}"));
+            let _ = std::fs::remove_dir_all(&outd);
+            let r = catch_unwind(AssertUnwindSafe(|| pyxis::build(sp, &outd, 8)));
+            n += 1;
+            let input = format!("in_dir `{}` with files {:?}", sp.display(), files.iter().map(|f| f.0).collect::<Vec<_>>());
+            match r {
+                Err(_) => { if prop == "C12" { out.push(Fail { family: "fs", input, ptr: 8, expected: "no panic".into(), actual: "PANIC in pyxis::build".into() }); } }
+                Ok(Err(e)) => { if prop == "C14" { out.push(Fail { family: "fs", input, ptr: 8, expected: format!("accepted, output files {want:?}"), actual: format!("ERR({e:#})") }); } }
+                Ok(Ok(())) => {
+                    let mut got = vec![];
+                    walk(&outd, &outd, &mut got);
+                    got.sort();
+                    if prop == "C14" && got != want { out.push(Fail { family: "fs", input, ptr: 8, expected: format!("exactly one output file per input module at the same relative path: {want:?}"), actual: format!("{got:?}") }); }
+                }
+            }
+        }
+        // a file that is not below the base directory is an error, not a panic
+        let outside = base.join("types").join(files[0].0);
+        let r = catch_unwind(AssertUnwindSafe(|| { let mut st = SemanticState::new(8); st.add_file(Path::new("/nonexistent-base"), &outside).map(|_| ()) }));
+        n += 1;
+        if r.is_err() && prop == "C12" { out.push(Fail { family: "fs", input: format!("add_file(\"/nonexistent-base\", {:?})", outside), ptr: 8, expected: "Ok or Err".into(), actual: "PANIC".into() }); }
+        if let Some(c) = &cwd { let _ = std::env::set_current_dir(c); }
+        let _ = std::fs::remove_dir_all(&base);
+    }
+    let _ = std::fs::remove_dir_all(&root);
+    n
+}
+
 fn run_family(prop: &str, seed: u64, quick: bool, out: &mut Vec<Fail>) -> usize {
     let mut n = 0;
+    if ["C14", "C12"].contains(&prop) { n += fs_family(prop, out); }
     if EMIT_PROPS.contains(&prop) {
         // the backend check also runs on every k-th input the other families find accepted
         EMIT_SAMPLE.with(|c| { let mut c = c.borrow_mut(); c.0 = if quick { 97 } else { 13 }; c.1 = seed as usize % 7; });
